@@ -623,6 +623,21 @@ def translate(target, repo=None):
     return f"(* {target['file']}: {target['func']} *)\nDefinition gen_{target['name']} ({args} : Q) : Q :=\n  {body}.\n"
 
 
+def _load_plugins():
+    """Groups owned by the family builders live in harness/gen_targets_<group>.py (GROUP = "<group>", TARGETS = [...],
+    optional HEADER = "From SV Require Import ...\n"); they are merged into the tables above on import."""
+    import glob
+    import importlib
+    for path in sorted(glob.glob(os.path.join(os.path.dirname(__file__), "gen_targets_*.py"))):
+        mod = importlib.import_module("harness." + os.path.basename(path)[:-3])
+        TARGETS[mod.GROUP] = mod.TARGETS
+        if getattr(mod, "HEADER", None):
+            HEADERS[mod.GROUP] = mod.HEADER
+
+
+_load_plugins()
+
+
 def regenerate(pid, group, res):
     """Translate, compile Gen_arith.v and the group's lemma file against it. Records obligations in `res`."""
     d = os.path.join(C.BUILD, "gen", f"{pid}_{group}_{os.getpid()}")
